@@ -34,7 +34,8 @@ def mk_case(rng, kind, quick):
     wide = rng.random() < 0.3                 # positions and coordinates with two digits
     shape = 16 if wide else 5
     rows_r = gen_rows(rng, L, ncoords=14 if wide else 5, maxrows=rng.randint(3, 10), shape=shape)
-    c = {"kind": kind, "order": order, "tranks": tranks, "mask": mask, "epl": epl, "shape": shape, "rows_r": rows_r, "rows_w": []}
+    c = {"kind": kind, "order": order, "tranks": tranks, "mask": mask, "epl": epl, "shape": shape, "rows_r": rows_r, "rows_w": [],
+         "slack": rng.choice([0, 0, 8, 16, 24])}
     if kind == "buffet":
         ev = rng.choice(["root"] + order[:-1])
         c["ev"] = ev
